@@ -173,8 +173,10 @@ class World:
             os.makedirs(ctl)
             open(os.path.join(ctl, "log"), "w").close(); open(os.path.join(ctl, "sched"), "w").close()
             open(sp, "w").write(SCRIPT)
-        up = 'sh %s %s up "{ABSOLUTE_CACHE_PATH}" "{FULL_STORAGE_PATH}" "{FULL_STORAGE_DIR}" {RELATIVE_CACHE_PATH}' % (sp, ctl)
-        down = 'sh %s %s down "{FULL_STORAGE_PATH}" "{ABSOLUTE_CACHE_PATH}" "{ABSOLUTE_CACHE_DIR}" {RELATIVE_CACHE_PATH}' % (sp, ctl)
+        # "exec": the shell xvc starts is replaced by the script, so a script killed by a signal (fault P) is a
+        # command that xvc sees die by a signal, not a shell reporting 137
+        up = 'exec sh %s %s up "{ABSOLUTE_CACHE_PATH}" "{FULL_STORAGE_PATH}" "{FULL_STORAGE_DIR}" {RELATIVE_CACHE_PATH}' % (sp, ctl)
+        down = 'exec sh %s %s down "{FULL_STORAGE_PATH}" "{ABSOLUTE_CACHE_PATH}" "{ABSOLUTE_CACHE_DIR}" {RELATIVE_CACHE_PATH}' % (sp, ctl)
         r1 = self.xvc(i, "storage", "new", "local", "--name", "L", "--path", st)
         r2 = self.xvc(i, "storage", "new", "generic", "--name", "G", "--storage-dir", st + "/",
                       "--init", 'mkdir -p "{STORAGE_DIR}" && cp "{LOCAL_GUID_FILE_PATH}" "{STORAGE_GUID_FILE_PATH}"',
